@@ -372,6 +372,14 @@ func registerIntrinsics(e *Engine) {
 			}
 			key := viewKey(ptr)
 			st := p.locks[key]
+			if what == "Lock" || what == "RLock" {
+				// lock-order graph: every lock held now is acquired-before this one
+				for h := range p.locks {
+					if h != key {
+						p.lockEdges[h+" -> "+key] = true
+					}
+				}
+			}
 			switch what {
 			case "Lock":
 				if st != 0 {
